@@ -39,6 +39,8 @@ type tierCfg struct {
 	randomCps        int
 	boundaryDocs     int // documents whose numbers are replaced by boundary values
 	boundaryK        int // values per number position
+	layoutDocs       int // documents re-rendered with CRLF / tabs / wide characters / one long line
+	layoutBreaks     int // broken variants per rendering
 }
 
 var tiers = map[string]tierCfg{
@@ -46,13 +48,13 @@ var tiers = map[string]tierCfg{
 		valid: 150, truncSmall: 6, truncLarge: 0, truncTestdata: 400,
 		confuseSmall: 3, confuseSmallK: 1, confuseLarge: 0, confuseTestdata: 120, confuseTestdataK: 1,
 		wellknownExtra: 60, noheaderDocs: 3, shuffles: 20, muxCases: 160, randomBytes: 100, randomCps: 120,
-		boundaryDocs: 4, boundaryK: 2,
+		boundaryDocs: 4, boundaryK: 2, layoutDocs: 4, layoutBreaks: 6,
 	},
 	"thorough": {
 		valid: 12000, truncSmall: 25, truncLarge: 15, truncTestdata: 0,
 		confuseSmall: 40, confuseSmallK: 8, confuseLarge: 40, confuseTestdata: 0, confuseTestdataK: 4,
 		wellknownExtra: 20000, noheaderDocs: 150, shuffles: 1500, muxCases: 0, randomBytes: 15000, randomCps: 15000,
-		boundaryDocs: 60, boundaryK: 4,
+		boundaryDocs: 60, boundaryK: 4, layoutDocs: 120, layoutBreaks: 12,
 	},
 }
 
@@ -202,6 +204,21 @@ func buildInputs(seed uint64, tier string) ([]input, error) {
 			text = genDoc(r, genCfg{messy: messyFor(i)}).bytes()
 		}
 		boundary(b, r, text, cfg.boundaryK)
+	}
+
+	// line ends, tabs, wide characters, long lines before an error
+	r = root.sub("layout")
+	{
+		var docs [][]byte
+		docs = append(docs, tdTexts...)
+		for i := 0; i < cfg.layoutDocs; i++ {
+			if i%2 == 0 {
+				docs = append(docs, smallDoc(r, i))
+			} else {
+				docs = append(docs, genDoc(r, genCfg{messy: messyFor(i)}).bytes())
+			}
+		}
+		layoutStream(b, r, docs, cfg.layoutBreaks)
 	}
 
 	// multiplexing corner cases
